@@ -41,6 +41,12 @@ type Op struct {
 
 func (o Op) String() string {
 	s := fmt.Sprintf("%s(fid=%d", o.Kind, o.Fid)
+	if o.Kind == "attach" && len(o.Name) > 0 {
+		s += fmt.Sprintf(" aname=%q", string(o.Name))
+	}
+	if o.PermHi != 0 {
+		s += fmt.Sprintf(" permhi=%#x", o.PermHi)
+	}
 	switch o.Kind {
 	case "walk":
 		s += fmt.Sprintf(" newfid=%d %q", o.Newfid, strsOf(o.Names))
@@ -75,12 +81,17 @@ type world struct {
 	export string
 	sess   p9p.Session
 	trace  []string
+	cwd    string // to restore after an emptyRoot world
 }
 
 var ctx = context.Background()
 
 // newWorld builds  top/export/{a/{x,d/{y}},f,e/}  plus whatever extra(top) adds.
-func newWorld(extra func(top string) error) (*world, error) {
+func newWorld(extra func(top string) error) (*world, error) { return newWorldOpt(extra, false) }
+
+// newWorldOpt: emptyRoot = the server is created with the root "" while the process's working
+// directory is the export (what an unset configuration variable gives)
+func newWorldOpt(extra func(top string) error, emptyRoot bool) (*world, error) {
 	top, err := os.MkdirTemp("", "ufsx")
 	if err != nil {
 		return nil, err
@@ -95,6 +106,17 @@ func newWorld(extra func(top string) error) (*world, error) {
 			os.RemoveAll(top)
 			return nil, err
 		}
+	}
+	if emptyRoot {
+		if cwd, err := os.Getwd(); err == nil {
+			w.cwd = cwd
+		}
+		if err := os.Chdir(w.export); err != nil {
+			os.RemoveAll(top)
+			return nil, err
+		}
+		w.sess = p9p.SFileSys(ufs.NewServer(ctx, ""))
+		return w, nil
 	}
 	w.sess = p9p.SFileSys(ufs.NewServer(ctx, w.export))
 	return w, nil
@@ -118,6 +140,9 @@ func populate(root string) error {
 func (w *world) close() {
 	if w.sess != nil {
 		w.sess.Stop(nil)
+	}
+	if w.cwd != "" {
+		os.Chdir(w.cwd)
 	}
 	// directories may have lost their permission bits
 	filepath.Walk(w.top, func(p string, info os.FileInfo, err error) error {
@@ -166,7 +191,7 @@ func (w *world) do(op Op) callResult {
 	r.pan = safely(func() {
 		switch op.Kind {
 		case "attach":
-			r.qid, r.err = s.Attach(ctx, fid, p9p.NOFID, "user", "")
+			r.qid, r.err = s.Attach(ctx, fid, p9p.NOFID, "user", string(op.Name))
 		case "walk":
 			r.qids, r.err = s.Walk(ctx, fid, p9p.Fid(op.Newfid), strsOf(op.Names)...)
 		case "open":
